@@ -574,7 +574,7 @@ fn aggregate_batches_vectorized(
 
         let agg_inputs: Result<Vec<ArrayRef>> = aggregates
             .iter()
-            .map(|a| evaluate_expr(batch, &a.input))
+            .map(|a| evaluate_aggregate_input(batch, &a.input))
             .collect();
         all_agg_inputs.push(agg_inputs?);
     }
@@ -1314,6 +1314,21 @@ fn aggregate_batches_parallel(
     build_output_from_groups(&merged_groups, group_by, aggregates, schema)
 }
 
+/// Evaluate an aggregate's argument, decoding a dictionary-encoded column to
+/// its value type. A small join build side hands its string columns on as
+/// dictionaries, and the accumulators downcast their input by concrete array
+/// type: MIN/MAX over such a column silently saw no value and answered NULL
+/// (a global `SELECT MAX(a.name), COUNT(*) FROM small a LEFT JOIN big b ..`),
+/// and the one-aggregate path failed with 'not implemented for type
+/// Dictionary', while the same query with a larger build side answered.
+fn evaluate_aggregate_input(batch: &RecordBatch, expr: &Expr) -> Result<ArrayRef> {
+    let arr = evaluate_expr(batch, expr)?;
+    if let DataType::Dictionary(_, value_type) = arr.data_type() {
+        return arrow::compute::cast(arr.as_ref(), value_type).map_err(Into::into);
+    }
+    Ok(arr)
+}
+
 /// Build a partial hash table from a subset of batches
 fn build_partial_hash_table(
     batches: &[RecordBatch],
@@ -1331,7 +1346,7 @@ fn build_partial_hash_table(
         // Evaluate aggregate inputs
         let agg_inputs: Result<Vec<ArrayRef>> = aggregates
             .iter()
-            .map(|a| evaluate_expr(batch, &a.input))
+            .map(|a| evaluate_aggregate_input(batch, &a.input))
             .collect();
         let agg_inputs = agg_inputs?;
 
@@ -1570,7 +1585,7 @@ fn aggregate_scalar_simd(
     aggregate: &AggregateExpr,
     schema: &SchemaRef,
 ) -> Result<RecordBatch> {
-    let input = evaluate_expr(batch, &aggregate.input)?;
+    let input = evaluate_aggregate_input(batch, &aggregate.input)?;
 
     let result: ArrayRef = match aggregate.func {
         AggregateFunction::Count => {
@@ -2099,7 +2114,7 @@ fn aggregate_batches_hash(
         // Evaluate aggregate inputs
         let agg_inputs: Result<Vec<ArrayRef>> = aggregates
             .iter()
-            .map(|a| evaluate_expr(batch, &a.input))
+            .map(|a| evaluate_aggregate_input(batch, &a.input))
             .collect();
         let agg_inputs = agg_inputs?;
 
